@@ -236,6 +236,8 @@ def plan(tier):
         specs += [{"sub": "cli", "kind": "hyp", "examples": 15000} for _ in range(4)]
         specs += [{"sub": "match", "kind": "sweep", "amax": 4, "rmax": 6, "rates": [0, 0.26, 0.34, 0.5],
                    "part": i, "of": 32} for i in range(32)]
+    if tier == "thorough":
+        specs.append({"sub": "match", "kind": "hyp", "examples": 60000, "asan": True})
     return specs
 
 
